@@ -19,9 +19,9 @@ RUN_WALL_WATCHDOG_S = 300.0
 TIERS = {
     # r_max: cap on clock readings of the un-interrupted run (deterministic step budget)
     # sweep_max: up to this many readings every cut is executed; above, a structured sample
-    "quick":    {"runs": 12000, "chunk": 10, "wall_cap_s": 75, "r_max": 1500, "sweep_max": 300, "size": 0,
+    "quick":    {"runs": 12000, "chunk": 10, "wall_cap_s": 75, "r_max": 1500, "sweep_max": 300, "size": 0, "b_max": 60000,
                  "det_sample_min": 8, "det_sample_frac": 0.005, "max_reports": 3, "shrink_candidates": 250},
-    "thorough": {"runs": 40000, "chunk": 8, "wall_cap_s": 1500, "r_max": 5000, "sweep_max": 900, "size": 1,
+    "thorough": {"runs": 40000, "chunk": 8, "wall_cap_s": 1500, "r_max": 5000, "sweep_max": 900, "size": 1, "b_max": 400000,
                  "det_sample_min": 32, "det_sample_frac": 0.003, "max_reports": 4, "shrink_candidates": 600,
                  "fresh_interpreter_check": True, "fresh_sample": 32},
 }
@@ -94,6 +94,20 @@ def _gen_items(r, family, k, nmax):
     if family == "tiny":
         n = r.randint(1, min(3, nmax))
         return [r.randint(0, 9) for _ in range(n)]
+    if family == "perfect":  # a perfect partition exists (every bin can reach total/k): exercises the global-lower-bound early exit
+        kk = max(1, min(k, 5))
+        S = r.choice([6, 10, 12, 20, 30, 60, 100])
+        items = []
+        for _ in range(kk):
+            left = S
+            while left > 0 and len(items) < nmax:
+                x = r.randint(1, left)
+                items.append(x)
+                left -= x
+            if left > 0:
+                items.append(left)
+        r.shuffle(items)
+        return items[:max(nmax, 1)] if r.random() < 0.8 else items[:max(nmax, 1)] + [r.randint(1, 3)]
     if family == "pow":      # powers of two and near-powers: unique optimum, LPT often wrong
         n = r.randint(min(4, nmax), nmax)
         return [max(0, 2 ** r.randint(0, 10) + r.choice([-1, 0, 0, 1])) for _ in range(n)]
@@ -115,7 +129,7 @@ def gen_plan(seed, tier):
     cfg = _tier(tier)
     r = core.rng(seed, "c11-swarm")
     algo = r.choices(["cg", "cbldm", "ckkgen"], weights=[62, 24, 14])[0]
-    family = r.choice(["narrow", "narrow", "narrow", "lptworst", "equal", "zeros", "zeros", "wide", "small", "small", "tiny", "pow"])
+    family = r.choice(["narrow", "narrow", "narrow", "lptworst", "equal", "zeros", "zeros", "wide", "small", "small", "tiny", "pow", "perfect", "perfect"])
     plan = {"prop": "C11", "algo": algo, "family": family}
     if algo == "cg":
         k = r.choices([1, 2, 3, 4, 5], weights=[10, 34, 34, 14, 8])[0]
@@ -144,6 +158,8 @@ def gen_plan(seed, tier):
         plan.update({"numbins": k})
     plan["items"] = items
     plan["r_max"] = cfg["r_max"]
+    if algo == "ckkgen":
+        plan["b_max"] = cfg["b_max"]          # cap on bins-manager operations (the generator reads no clock)
     plan["sweep_max"] = cfg["sweep_max"]
     plan["binner"] = r.choice(["contents", "contents", "sums"])
     plan["log"] = r.choice([None, None, None, None, None, None, "INFO", "INFO", "DEBUG"])      # deployment configuration: prtpy.* logging level
@@ -194,9 +210,55 @@ def _presentation(plan):
     return list(values), None, None
 
 
-def _binner(plan, valueof):
+_counting = {}
+
+
+def _counting_binner_class(kind):
+    """The bins-manager is supplied by the caller, so the harness may hand over a subclass: one that counts the
+    operations performed through it and raises StepBudgetExceeded (a BaseException) beyond the budget. This is the
+    deterministic step cap for code that reads no clock (the CKK generator); it changes no behaviour."""
+    if kind in _counting:
+        return _counting[kind]
     import prtpy
-    cls = prtpy.BinnerKeepingContents if plan["binner"] == "contents" else prtpy.BinnerKeepingSums
+    base = prtpy.BinnerKeepingContents if kind == "contents" else prtpy.BinnerKeepingSums
+
+    class Counting(base):
+        ops = 0
+        budget = 10 ** 12
+
+        def _tick(self):
+            Counting.ops += 1
+            if Counting.ops > Counting.budget:
+                raise StepBudgetExceeded("bins-manager operations")
+
+        def copy_bins(self, *a, **k):
+            self._tick()
+            return base.copy_bins(self, *a, **k)
+
+        def sort_by_ascending_sum(self, *a, **k):
+            self._tick()
+            return base.sort_by_ascending_sum(self, *a, **k)
+
+        def combine_bins(self, *a, **k):
+            self._tick()
+            return base.combine_bins(self, *a, **k)
+
+        def add_item_to_bin(self, *a, **k):
+            self._tick()
+            return base.add_item_to_bin(self, *a, **k)
+    Counting.__name__ = base.__name__
+    Counting.__qualname__ = base.__qualname__
+    _counting[kind] = Counting
+    return Counting
+
+
+def _binner(plan, valueof, budget=None):
+    import prtpy
+    if budget is not None:
+        cls = _counting_binner_class(plan["binner"])
+        cls.ops, cls.budget = 0, budget
+    else:
+        cls = prtpy.BinnerKeepingContents if plan["binner"] == "contents" else prtpy.BinnerKeepingSums
     return cls(valueof) if valueof is not None else cls()
 
 
@@ -534,7 +596,7 @@ def _execute_schedule(plan, res, tr):
 def _gen_objects(plan):
     from prtpy.partitioning import complete_karmarkar_karp_sy as ckk
     items, vmap, valueof = _presentation(plan)
-    binner = _binner(plan, valueof)
+    binner = _binner(plan, valueof, budget=plan.get("b_max", 150000))
     return ckk.generator(binner, plan["numbins"], items)
 
 
@@ -564,6 +626,13 @@ def _execute_generator(plan, res, tr):
                 truncated = True          # consumer walks away; strictness of every consecutive pair so far was judged
                 res.probe("generator_consumer_stopped_after_400_yields")
                 break
+    except StepBudgetExceeded:
+        # what was yielded so far has been judged (validity, strictness); optimality of the last yield and the
+        # abandon points cannot be, the search being cut off by the harness
+        res.discarded = "over_step_budget"
+        tr.add("discard", why="generator exceeds the bins-manager operation budget", yields=len(yielded))
+        res.evaluations += 1
+        return
     except Exception as e:
         res.violate("crash", exception=type(e).__name__, message=str(e)[:200], after_yields=len(yielded))
         tr.add("gen-exc", exc=type(e).__name__)
